@@ -131,3 +131,34 @@ extern "C" void h_c39_rotation(unsigned long ticks_a, unsigned long ticks_b) {
     verif_assert(ka.has_value() && kb.has_value() && *ka == *kb, "C39: after any ticks both ends of the open session hold the same key");
     verif_reach("compared");
 }
+// handshake, optional re-handshake (both ends register the session again with the same secret and material, as a reconnecting peer with a
+// stable identity does), then one tick per end. A tick's timestamp may be up to 3 s OLDER than the registration (Node::tick reads the clock
+// first and rotates last, a handshake can complete in between). The known finding covers rotations that were DUE on the rotating end
+// (at least the interval since that end's latest registration); if no due rotation happened the two ends must hold the same key.
+extern "C" void h_c39_schedule(unsigned long rehandshake) {
+    crypto::Key secret; nondet_bytes(secret.bytes.data(), 32, "shared_secret");
+    const std::uint16_t interval = nondet_u16("rotation_interval_s");
+    verif_assume(interval >= 5 && interval <= 3600);
+    KeyManager at_a{std::chrono::seconds(interval)}, at_b{std::chrono::seconds(interval)};
+    PeerId ida{}, idb{}; ida[0] = 1; idb[0] = 2;
+    std::array<std::uint8_t, 8> material{}; nondet_bytes(material.data(), 8, "material");
+    const long long kS = 1000000000LL;
+    long long ta = (10 + static_cast<long long>(nondet_u16("clock_a_s"))) * kS, tb = (10 + static_cast<long long>(nondet_u16("clock_b_s"))) * kS;
+    auto tp = [](long long ns) { return std::chrono::steady_clock::time_point(std::chrono::nanoseconds(ns)); };
+    at_a.register_session_with_material(idb, secret, material, tp(ta));
+    at_b.register_session_with_material(ida, secret, material, tp(tb));
+    if (rehandshake) {
+        ta += static_cast<long long>(nondet_u16("rehandshake_after_a_s") & 0x1FFF) * kS; tb += static_cast<long long>(nondet_u16("rehandshake_after_b_s") & 0x1FFF) * kS;
+        at_a.register_session_with_material(idb, secret, material, tp(ta));
+        at_b.register_session_with_material(ida, secret, material, tp(tb));
+    }
+    const long long tick_a = ta - 3 * kS + static_cast<long long>(nondet_u16("tick_a_after_s_minus_3") & 0x1FFF) * kS;
+    const long long tick_b = tb - 3 * kS + static_cast<long long>(nondet_u16("tick_b_after_s_minus_3") & 0x1FFF) * kS;
+    const bool rot_a = at_a.rotate_if_needed(idb, tp(tick_a)).has_value();
+    const bool rot_b = at_b.rotate_if_needed(ida, tp(tick_b)).has_value();
+    const bool due_a = tick_a - ta >= static_cast<long long>(interval) * kS, due_b = tick_b - tb >= static_cast<long long>(interval) * kS;
+    const auto ka = at_a.current_key(idb), kb = at_b.current_key(ida);
+    if (verif_known("C39-rotation-mixes-local-clock", (rot_a && due_a) || (rot_b && due_b))) verif_reach("known-region");
+    verif_assert(ka.has_value() && kb.has_value() && *ka == *kb, "C39: while no rotation is due since the latest (re-)handshake both ends of the open session hold the same key, whatever the tick timing");
+    verif_reach("compared");
+}
